@@ -12,7 +12,10 @@ import sig
 PID = "C14"
 
 
-def model(rep, w, tier):
+from c11 import model
+
+
+def _unused(rep, w, tier):
     r = C.tlc(w, "Signalling.tla", "MC_Signalling.cfg", workers=C.NCPU, timeout=1500, heap="20g", deadlock=False)
     rep.model("MC_Signalling.cfg (3 clients, 2 groups, every stimulus in every membership state, <=3 stimuli; exhaustive)", r, exhaustive=True)
     if r.violated:
@@ -26,6 +29,18 @@ def run(tier, replay=None):
     try:
         model(rep, w, tier)
         sig.run(rep, w, tier, PID, replay)
+        # simultaneous joins / departures at the library level (real group package, fake clients that rebuild their views)
+        import grp, json as _json
+        gbin = grp.build(w)
+        rc, out, trace, races = grp.run_mode(w, gbin, "conc", {"VERIF_N": "1200" if tier == "thorough" else "150"}, timeout=1500)
+        if rc != 0:
+            raise C.Inconclusive("groupdrive conc failed (exit %d): %s" % (rc, out[-1500:]))
+        events, vc = grp.validate(w, trace)
+        rep.cov["concurrent_rounds_with_view_comparison"] = sum(1 for e in events if e.get("ev") == "views")
+        rep.traces(vc.nbeh)
+        for (line, nb, clause) in vc.bads:
+            if clause.startswith("C14_"):
+                rep.violation("%s in a racing round of the real group package: %s" % (clause, _json.dumps(events[line - 1])[:400]), {"mode": "conc", "seed": C.seed()})
         rep.assumptions += ["sequential driver with a quiescence barrier after every stimulus: effects are attributed to the stimulus that precedes them",
                             "rights are what the server itself told each client in joined messages (their correctness is C08's business)",
                             "WHIP ingest (A5) is judged by C17's HTTP table, not here"]
